@@ -182,6 +182,8 @@ static void do_op(const char *op, int a, int b, const char *text)
 #endif
 #ifndef SIMC
     else if (!strcmp(op, "str_val")) { sim_phase(1); SIM_str_val_bufferify(a, &d); fetch_string(&d); }
+    else if (!strcmp(op, "str_val2")) { sim_phase(1); SIM_str_val2_bufferify(a, &d); fetch_string(&d); }
+    else if (!strcmp(op, "str_val3")) { sim_phase(1); SIM_str_val3_bufferify(a, &d); fetch_string(&d); }
 #endif
 #ifndef SIMC
     else if (!strcmp(op, "str_owned")) { sim_phase(1); SIM_str_owned_bufferify(a, &d); fetch_string(&d); }
